@@ -3,6 +3,7 @@ package main
 import (
 	"fmt"
 	"go/constant"
+	"go/token"
 	"go/types"
 	"sort"
 	"strings"
@@ -23,6 +24,9 @@ func init() {
 	register(&Rule{ID: "FORMAT-const", Props: []string{"C19"}, Min: 100,
 		Doc: "G: the description of an error is a printf format (newError -> ottoError.describe -> fmt.Sprintf; (*parser).error -> fmt.Sprintf). A call that passes run-time text (an error's Error(), a script-controlled string) as the format with no arguments garbles every '%' in it (`eval(\"var a = %;\")` reports `%!(MISSING)`). The printf-like family is computed from the code (fmt's formatters, every function forwarding a format parameter and its variadic list to a member, and the newError family whose format is the first variadic element); at every call the format is a constant, or arguments are supplied",
 		Run: ruleFormatConst})
+	register(&Rule{ID: "ERR-pattern-class", Props: []string{"C19", "C12"}, Min: 2,
+		Doc: "G (sibling agreement): a pattern that is not a regular expression is a SyntaxError (ES5 15.10.4.1), whichever of the two compilers rejects it. In every function of package otto that compiles a script-supplied pattern, the failure branch of each compiler call (parser.TransformRegExp, regexp.Compile: the region dominated by `err != nil` for the error it returned) raises through the SyntaxError constructor; a TypeError there is allowed only beside it, for the valid-but-unsupported patterns (lookahead, backreference) that the transformer reports with a non-empty result. `new RegExp(\"(\")` must be catchable as a SyntaxError like the literal `/(/`",
+		Run: ruleErrPatternClass})
 	register(&Rule{ID: "ERR-is-target", Props: []string{"C19"}, Min: 3,
 		Doc: "G: errors.Is compares with == (no error type of the module defines an Is method), so a target that is the address of a fresh local can never match and the branch it guards is dead: parseThrow's ReferenceError branch for `invalid left-hand side in assignment` hangs on such a test, so eval(\"42 = 42\") raises a SyntaxError. Every errors.Is target is a package-level sentinel or a value that can be identical to the error; errors.As targets are addresses",
 		Run: ruleErrIsTarget})
@@ -560,4 +564,94 @@ func ruleErrIsTarget(c *Ctx, r *R) {
 			}
 		}
 	}
+}
+
+func ruleErrPatternClass(c *Ctx, r *R) {
+	n := 0
+	for _, fn := range c.AllSrcFuncs("") {
+		ord := 0
+		for _, b := range fn.Blocks {
+			for _, ins := range b.Instrs {
+				call, ok := ins.(*ssa.Call)
+				if !ok {
+					continue
+				}
+				callee := call.Call.StaticCallee()
+				if callee == nil || callee.Pkg == nil {
+					continue
+				}
+				name := callee.Pkg.Pkg.Path() + "." + callee.Name()
+				if name != ottoPath+"/parser.TransformRegExp" && name != "regexp.Compile" {
+					continue
+				}
+				// the pattern must not be a constant (module-internal helper patterns)
+				if _, isConst := call.Call.Args[0].(*ssa.Const); isConst {
+					continue
+				}
+				// a literal string quoted with regexp.QuoteMeta is not a pattern
+				if qc, ok := call.Call.Args[0].(*ssa.Call); ok {
+					if q := qc.Call.StaticCallee(); q != nil && q.Pkg != nil && q.Pkg.Pkg.Path() == "regexp" && q.Name() == "QuoteMeta" {
+						continue
+					}
+				}
+				ord++
+				n++
+				key := fmt.Sprintf("%s:%s#%d", ssaFuncName(fn), callee.Name(), ord)
+				site := c.Pos(instrPos(call))
+				// err = extract #1; region dominated by the true edge of err != nil
+				var region []*ssa.BasicBlock
+				for _, ref := range *call.Referrers() {
+					ex, ok := ref.(*ssa.Extract)
+					if !ok || ex.Index != 1 {
+						continue
+					}
+					for _, r2 := range *ex.Referrers() {
+						bo, ok := r2.(*ssa.BinOp)
+						if !ok || !isNilConst(bo.Y) {
+							continue
+						}
+						for _, r3 := range *bo.Referrers() {
+							iff, ok := r3.(*ssa.If)
+							if !ok {
+								continue
+							}
+							succ := iff.Block().Succs[0]
+							if bo.Op == token.EQL {
+								succ = iff.Block().Succs[1]
+							}
+							for _, bb := range fn.Blocks {
+								if succ.Dominates(bb) && len(succ.Preds) == 1 {
+									region = append(region, bb)
+								}
+							}
+						}
+					}
+				}
+				if len(region) == 0 {
+					r.bad(key, site, fmt.Sprintf("%s: the error of %s is not tested with `err != nil`: an invalid pattern is not reported", ssaFuncName(fn), callee.Name()))
+					continue
+				}
+				var ctors []string
+				syntax := false
+				for _, bb := range region {
+					for _, i2 := range bb.Instrs {
+						if c2, ok := i2.(*ssa.Call); ok {
+							if ce := c2.Call.StaticCallee(); ce != nil && strings.HasPrefix(ce.Name(), "panic") && strings.HasSuffix(ce.Name(), "Error") {
+								ctors = append(ctors, ce.Name())
+								if ce.Name() == "panicSyntaxError" {
+									syntax = true
+								}
+							}
+						}
+					}
+				}
+				if syntax {
+					r.ok(key, site, fmt.Sprintf("the failure branch raises through panicSyntaxError (constructors used there: %v)", ctors))
+				} else {
+					r.bad(key, site, fmt.Sprintf("%s: when %s rejects the pattern the failure branch raises only %v: `new RegExp(\"(\")` is not a SyntaxError (ES5 15.10.4.1), although the literal `/(/` and patterns rejected by the other compiler are", ssaFuncName(fn), callee.Name(), ctors))
+				}
+			}
+		}
+	}
+	r.note("compiler-calls", n)
 }
